@@ -409,7 +409,7 @@ func init() {
 	vx.Register(&vx.Scenario{Name: "mux.timeout", Prop: "C12", Run: func(c *vx.Ctx) *vx.Report {
 		op := c.P("op", "open")
 		sc := &vrt.Scenario{
-			Opt:      vrt.Options{RandInt: chooseConnOpt(), HorizonNs: int64(100 * time.Second)},
+			Opt:      vrt.Options{RandInt: chooseConnDraws(c.P("draws", "prf")), HorizonNs: int64(100 * time.Second)},
 			Classify: deadlockIs("blocked-calls-return"),
 			Main: func() {
 				T := 10 * time.Second
@@ -487,6 +487,15 @@ func init() {
 					if !r.cli.IsClosed() {
 						vrt.Fail("idle-session-times-out", "a session without streams is still open after %v", T+T/2)
 					}
+					// closing on the timer is a close like any other: the peer is told and every connection ends up closed
+					if !r.srv.IsClosed() {
+						vrt.Fail("both-sessions-closed", "the idle session closed itself on its timer but the peer's session is still open (no closing notice reached it)")
+					}
+					for _, cn := range append(append([]*vnetConn{}, r.ca...), r.sa...) {
+						if !cn.IsClosed() {
+							vrt.Fail("all-conns-closed", "the idle session closed itself on its timer; connection end %s is still open", cn.Name)
+						}
+					}
 					vrt.Observe("idle closed msg=%q", r.cli.TerminalMsg())
 					return
 				}
@@ -545,6 +554,9 @@ func init() {
 		jobs = append(jobs, vx.Job{Scenario: "mux.closerace", Params: vx.P("op", "open", "conns", "2"), Bound: b(1, 2), Weight: 5})
 		jobs = append(jobs, vx.Job{Scenario: "mux.count", Params: vx.P("delay", "1"), Bound: b(1, 3), Weight: 9})
 		jobs = append(jobs, vx.Job{Scenario: "mux.count", Params: vx.P("conns", "1"), Bound: b(1, 2), Weight: 9})
+		for _, d := range []string{"min", "max"} {
+			jobs = append(jobs, vx.Job{Scenario: "mux.timeout", Params: vx.P("op", "idle", "draws", d), Bound: b(1, 2), Weight: 3})
+		}
 		for _, op := range []string{"open", "reopen", "idle", "accept"} {
 			bd := b(2, 3)
 			if op == "accept" {
